@@ -630,6 +630,12 @@ func (fx *FnCtx) evalBin(env *Env, x *SBin) SV {
 		if m, ok := lowMask(p); ok {
 			return mk1(IModE(q, m))
 		}
+		if r, ok := andConstMask(p, q); ok {
+			return mk1(r)
+		}
+		if r, ok := andConstMask(q, p); ok {
+			return mk1(r)
+		}
 		return mk1(fx.bitUF("bitand", p, q, rt))
 	case "|":
 		if r, ok := fx.disjointOr(a.V, b.V, rt); ok {
@@ -985,6 +991,15 @@ func (fx *FnCtx) evalCall(env *Env, x *SCall) SV {
 	}
 	if sf.Opaque && fx.root.boundedK == 0 {
 		return fx.opaqueCall(x, sf, sub, spkg, rtyp, argTerms, argSorts)
+	}
+	if sf.Opaque && env.depth > 6 {
+		// bounded instance search unfolds (possibly recursive) opaque functions a few levels and leaves
+		// the rest uninterpreted; models found this way are only candidates, confirmed by replay
+		lay := tc.Layout(rtyp)
+		if len(lay.Leaves) == 1 {
+			f := DeclareUF("sfb_"+tc.Mode.String()+"_"+sf.Name, argSorts, lay.Leaves[0].Sort)
+			return SV{V: Value{T: rtyp, L: []*Term{f.App(argTerms...)}}}
+		}
 	}
 	sub.hint = rtyp
 	r := fx.evalSpec(sub, sf.Body)
